@@ -16,6 +16,14 @@
 //     xor; rotation sign flips under reflection; own repetition untouched (documented).
 //   * Repetition::transform: multiset of denoted offsets (dump::own_offsets) == linear part of M
 //     applied to the original multiset.
+// Objects beyond the plain ones: "flexpath_ext"/"robustpath_ext" give element 0 a HalfWidth end and
+// element 1 an Extended end (end_extensions are lengths: the model scales them by |scale|);
+// "flexpath_bend" uses BendType::Circular (bend_radius is a length as well).  They are separate
+// searches so that a failure there never stops the exploration of the plain objects.
+// Bounds: quick = all histories of length <= 2; thorough = length <= 3 for the curved objects
+// (region comparison) and <= 4 for the vertex-exact ones.  A state whose check fails is reported
+// and not expanded; the failure class carries the operation signature and a diagnosis
+// ("as-if+..." = the observed outline equals the model's with that single convention changed).
 // When scale_width is false the reference object is built with widths divided by the accumulated
 // scale, so that M * outline(reference) has unscaled widths and scaled offsets (property text:
 // "path widths scale only when width scaling is enabled while offsets always do").
